@@ -8,6 +8,7 @@ import (
 	"os/exec"
 	"strconv"
 	"strings"
+	"sync"
 	"time"
 )
 
@@ -24,6 +25,7 @@ type SolverProc struct {
 	tmoOp func(ms int) string
 	reset string
 	nq    int
+	mu    sync.Mutex
 }
 
 type SolverStats struct {
@@ -39,6 +41,7 @@ type SolverStats struct {
 }
 
 type Solver struct {
+	mu    sync.Mutex
 	procs map[string]*SolverProc
 	stats SolverStats
 	dump  string
@@ -71,6 +74,8 @@ func solverSpec(name string) *SolverProc {
 }
 
 func (sp *SolverProc) start() error {
+	sp.mu.Lock()
+	defer sp.mu.Unlock()
 	sp.cmd = exec.Command(sp.argv[0], sp.argv[1:]...)
 	var err error
 	sp.in, err = sp.cmd.StdinPipe()
@@ -103,11 +108,14 @@ func (sp *SolverProc) start() error {
 }
 
 func (sp *SolverProc) kill() {
-	if sp.cmd != nil && sp.cmd.Process != nil {
-		sp.cmd.Process.Kill()
-		sp.cmd.Wait()
-	}
+	sp.mu.Lock()
+	cmd := sp.cmd
 	sp.cmd = nil
+	sp.mu.Unlock()
+	if cmd != nil && cmd.Process != nil {
+		cmd.Process.Kill()
+		cmd.Wait()
+	}
 }
 
 // exchange writes text followed by an echo sentinel and collects the lines printed before it.
@@ -182,7 +190,18 @@ func (sp *SolverProc) run(body, getValue string, tmoMs int) (string, string) {
 	return "sat", strings.Join(lines, "\n")
 }
 
+// interrupt ends the solver process from another goroutine; the reader notices EOF.
+func (sp *SolverProc) interrupt() {
+	sp.mu.Lock()
+	defer sp.mu.Unlock()
+	if sp.cmd != nil && sp.cmd.Process != nil {
+		sp.cmd.Process.Kill()
+	}
+}
+
 func (so *Solver) proc(name string) *SolverProc {
+	so.mu.Lock()
+	defer so.mu.Unlock()
 	p, ok := so.procs[name]
 	if !ok {
 		p = solverSpec(name)
@@ -201,7 +220,7 @@ type Query struct {
 	asserts []*Term
 	want    []*Term // terms whose model values are requested (vars or any term)
 	tmoMs   int
-	order   []string // solver portfolio order; nil = default
+	stages  [][]string // solver portfolio; nil = default
 	purpose string
 }
 
@@ -251,16 +270,20 @@ func (so *Solver) Check(q Query) Answer {
 		}
 		gv.WriteString("))\n")
 	}
-	order := q.order
-	if order == nil {
+	// portfolio: a list of stages; the solvers of one stage race, the first definite answer wins
+	stages := q.stages
+	if stages == nil {
 		if hasHardArith(q.asserts) {
-			order = []string{"cvc5iand", "z3new", "cvc5sum", "cvc5"}
+			stages = [][]string{{"z3new", "cvc5iand", "cvc5sum"}, {"cvc5"}}
 		} else {
-			order = []string{"z3new", "cvc5", "z3old"}
+			stages = [][]string{{"z3new"}, {"cvc5", "z3old"}}
 		}
 	}
-	if os.Getenv("GOSYM_SOLVER") != "" {
-		order = strings.Split(os.Getenv("GOSYM_SOLVER"), ",")
+	if v := os.Getenv("GOSYM_SOLVER"); v != "" {
+		stages = nil
+		for _, st := range strings.Split(v, ";") {
+			stages = append(stages, strings.Split(st, ","))
+		}
 	}
 	tmo := q.tmoMs
 	if tmo == 0 {
@@ -275,40 +298,70 @@ func (so *Solver) Check(q Query) Answer {
 		}
 	}
 	var ans Answer
-	for i, name := range order {
-		t0 := time.Now()
-		full := body
-		st, rest := so.proc(name).run(full, gv.String(), tmo)
-		d := time.Since(t0).Seconds()
-		so.stats.Queries++
-		so.stats.TimeS += d
-		so.stats.BySolver[name]++
-		so.stats.TimeBy[name] += d
-		if d > so.stats.MaxQueryS {
-			so.stats.MaxQueryS = d
+	type raceRes struct {
+		name     string
+		st, rest string
+		d        float64
+	}
+	for si, stage := range stages {
+		ch := make(chan raceRes, len(stage))
+		for _, name := range stage {
+			go func(name string) {
+				t0 := time.Now()
+				st, rest := so.proc(name).run(body, gv.String(), tmo)
+				ch <- raceRes{name, st, rest, time.Since(t0).Seconds()}
+			}(name)
 		}
-		if so.dump != "" {
-			os.WriteFile(fmt.Sprintf("%s/q%05d-%s-%s.smt2", so.dump, so.stats.Queries, name, st), []byte(full+gv.String()), 0644)
-		}
-		if debugOn {
-			fmt.Fprintf(os.Stderr, "  [solver %s] %s nodes=%d bytes=%d %.2fs %s\n", name, q.purpose, p.nodes, len(body), d, st)
-		}
-		ans = Answer{status: st, solver: name, secs: d}
-		if st == "sat" {
-			ans.model, ans.vals = parseValues(rest, p, q.want)
-			if ans.model == nil {
-				ans.status = "unknown"
+		decided := false
+		for k := 0; k < len(stage); k++ {
+			r := <-ch
+			so.stats.Queries++
+			so.stats.BySolver[r.name]++
+			so.stats.TimeBy[r.name] += r.d
+			if so.dump != "" {
+				os.WriteFile(fmt.Sprintf("%s/q%05d-%s-%s.smt2", so.dump, so.stats.Queries, r.name, r.st), []byte(body+gv.String()), 0644)
+			}
+			if debugOn {
+				fmt.Fprintf(os.Stderr, "  [solver %s] %s nodes=%d bytes=%d %.2fs %s\n", r.name, q.purpose, p.nodes, len(body), r.d, r.st)
+			}
+			if decided {
 				continue
 			}
-			so.stats.Sat++
+			if r.st == "sat" {
+				m, v := parseValues(r.rest, p, q.want)
+				if m == nil {
+					continue
+				}
+				ans = Answer{status: "sat", solver: r.name, secs: r.d, model: m, vals: v}
+			} else if r.st == "unsat" {
+				ans = Answer{status: "unsat", solver: r.name, secs: r.d}
+			} else {
+				continue
+			}
+			decided = true
+			so.stats.TimeS += r.d
+			if r.d > so.stats.MaxQueryS {
+				so.stats.MaxQueryS = r.d
+			}
+			// stop the losers
+			for _, other := range stage {
+				if other != r.name {
+					so.proc(other).interrupt()
+				}
+			}
+		}
+		if decided {
+			if ans.status == "sat" {
+				so.stats.Sat++
+			} else {
+				so.stats.Unsat++
+			}
 			break
 		}
-		if st == "unsat" {
-			so.stats.Unsat++
-			break
-		}
-		if i == len(order)-1 {
+		so.stats.TimeS += float64(tmo) / 1000
+		if si == len(stages)-1 {
 			so.stats.Unknown++
+			ans = Answer{status: "unknown", solver: strings.Join(stage, "+")}
 		}
 	}
 	if cacheKey != "" && ans.status != "unknown" {
